@@ -144,4 +144,52 @@ theorem no_shared_ip_counter :
       podB0 ≠ podB1 := by
   refine ⟨by decide, ⟨by decide, by decide, by decide⟩, ⟨by decide, by decide, by decide⟩, by decide, by decide, by decide⟩
 
+/-! ### a pod inside its deletion grace period is a live pod -/
+
+/-- `finished(pod)` looks at the phase only (regenerated: its body is exactly the two phase comparisons).  A pod whose
+    deletionTimestamp is set still exists and may still run: in the model it stays in API truth with `terminating := true`
+    (`Move.markTerminating`: the update event reaches UpdatePod, which queues nothing and still runs syncPodIP; the pod
+    is really deleted by a later `deletePod`), `LiveBound` - and with it every theorem above - includes it. -/
+theorem fact_finished_checks_phase_only :
+    Generated.Plugin.finishedChecksPhaseOnly = true ∧ facts.finishedChecksPhaseOnly = true := by decide
+
+/-- a `finished()` that also counts a pod being deleted ("speeds up rolling updates") -/
+def factsTerminatingIsFinished : Facts := { Facts.good with finishedChecksPhaseOnly := false }
+
+/-- a-0 is bound and running, its graceful deletion begins, the queued events are delivered, and the replacement a-1 is
+    created, filtered and bound on the same subnet BEFORE a-0 is really gone (corpus/C01/graceful-deletion.ops) -/
+def graceful : List Move := [
+  .scale .sts "ns1" "a" 2,
+  .createPod "ns1" "a-0" .sts "a" "" 0 [] true,
+  .listerSync true true,
+  .filter "ns1" "a-0" ["n1"] {} 0,
+  .bind "ns1" "a-0" 1 "n1" { pick := some 168427522 } 0 0,
+  .runPod "ns1" "a-0",
+  .markTerminating "ns1" "a-0" 0,
+  .listerSync true true,
+  .deliver 0 0 0,
+  .resync [168427522] 0 0,
+  .createPod "ns1" "a-1" .sts "a" "" 0 [] true,
+  .listerSync true true,
+  .filter "ns1" "a-1" ["n1"] {} 0,
+  .bind "ns1" "a-1" 2 "n1" { pick := some 168427522 } 0 0 ]
+
+def podT0 : Pod := { ns := "ns1", name := "a-0", uid := 1, kind := .sts, app := "a", pool := "", policy := 0, ranges := [], wants := true, phase := .running, node := "n1", handed := [⟨168427522, 24, 168427521, 0⟩], terminating := true }
+def podT1 : Pod := { ns := "ns1", name := "a-1", uid := 2, kind := .sts, app := "a", pool := "", policy := 0, ranges := [], wants := true, phase := .pending, node := "n1", handed := [⟨168427522, 24, 168427521, 0⟩] }
+
+set_option maxRecDepth 100000 in
+/-- With a `finished()` that counts a terminating pod the statement fails: the terminating pod (it exists, it is Running)
+    and its replacement are two live pods with the same address.  With the current code the terminating pod keeps its
+    address through the event delivery and the resync pass and the replacement gets none (second conjunct). -/
+theorem terminating_pod_counter :
+    (allAssumed factsTerminatingIsFinished (init conf0) graceful = true ∧
+      LiveBound (run factsTerminatingIsFinished (init conf0) graceful).pods podT0 ∧
+      LiveBound (run factsTerminatingIsFinished (init conf0) graceful).pods podT1 ∧
+      168427522 ∈ podT0.ips ∧ 168427522 ∈ podT1.ips ∧ podT0 ≠ podT1) ∧
+    (LiveBound (run facts (init conf0) graceful).pods podT0 ∧
+      (Tbl.get (run facts (init conf0) graceful).alloc 168427522).map (·.uid) = some 1 ∧
+      ((run facts (init conf0) graceful).pods.get ("ns1", "a-1")).map (·.handed) = some []) := by
+  refine ⟨⟨by decide, ⟨by decide, by decide, by decide⟩, ⟨by decide, by decide, by decide⟩, by decide, by decide, by decide⟩,
+    ⟨by decide, by decide, by decide⟩, by decide, by decide⟩
+
 end Galaxy.Props.C01
